@@ -466,13 +466,16 @@ Definition destroy (s : st) (o : nat) (had_cookie : bool) : st * result unit * l
   end.
 
 (* Following replaced-ID records to the live session (fuelled; the fuel given
-   by Start exceeds the number of IDs ever generated). *)
-Fixpoint follow (fuel : nat) (s : st) (o : nat) : st * result nat :=
+   by Start exceeds the number of IDs ever generated). Besides the object
+   reached it yields the last key followed (Go's currentID: the referenceID
+   used for the final sessions.Get); last is returned when no record was
+   followed. *)
+Fixpoint follow (fuel : nat) (s : st) (o : nat) (last : key) : st * result (nat * key) :=
   match hget s o with
   | None => (s, Panic EGetRef)
   | Some ob =>
     match r_ref (o_rec ob) with
-    | None => (s, Ok o)
+    | None => (s, Ok (o, last))
     | Some target =>
       match fuel with
       | O => (s, Err ERefLoop)
@@ -481,7 +484,7 @@ Fixpoint follow (fuel : nat) (s : st) (o : nat) : st * result nat :=
         match r with
         | None => (s, Err EGetRef)
         | Some None => (s, Err ERefMissing)
-        | Some (Some o') => follow f s o'
+        | Some (Some o') => follow f s o' target
         end
       end
     end
@@ -549,14 +552,13 @@ Definition start (s : st) (q : request) : st * result (option nat) * list cookie
           | Err e => (s, Err e, cks)
           | Panic e => (s, Panic e, cks)
           | Ok _ =>
-            let '(s, fr) := if isref then follow (S (N.to_nat (supply s))) s o else (s, Ok o) in
+            let '(s, fr) := if isref then follow (S (N.to_nat (supply s))) s o k else (s, Ok (o, k)) in
             match fr with
             | Err e => (s, Err e, cks)
             | Panic e => (s, Panic e, cks)
-            | Ok o' =>
-              let cks := if isref then
-                           match hget s o' with Some ob' => cks ++ [CkLive (o_id ob')] | None => cks end
-                         else cks in
+            | Ok (o', lk) =>
+              (* cookie.Value = currentID: the last key followed *)
+              let cks := if isref then cks ++ [CkLive lk] else cks in
               let s := hupd s o' (fun r => set_ua (set_ip (set_access r (now s)) (q_addr q)) (q_ua q)) in
               (s, Ok (Some o'), cks)
             end
